@@ -6,6 +6,8 @@ ids = [json.loads(l)["id"] for l in open(os.path.join(ROOT, "properties.jsonl"))
 
 TRUST = "trusted base: Linux AF_UNIX+epoll standing in for TCP (address translation, EPOLLHUP mapped to TCP semantics), the libc interposition layer, the scripted peers and reference oracles in /verif/sim; release semantics (debug assertions off); x86-64 only. A clean batch is evidence over the sampled schedules, not proof."
 
+MS="modelsim tier: the component is driven through its public API in-process under seeded hash order; system tiers named in the evidence not_covered list are not decided by this check."
+
 CHECKS = {
  "C10": dict(engine="netsim", design="5/C10", category="exploration",
    text="Two plan families. codec: listener sets 0..200 of every textual address shape sent with the real send_listeners and read back with the real receive_listeners over a real unix socket pair, each returned fd checked against its address, with an fd-table audit. handover: two real workers (two threads under a baton scheduler that decides who runs) and a scripted master replaying ReturnListenSockets -> receive -> boot successor -> SoftStop/activate at seeded moments relative to client traffic; oracles: every listener returns bound to its address, every connect succeeds and every request in flight completes (C01 oracle), the old worker accepts nothing after acknowledging the stop, acknowledges exactly once and exits.",
@@ -18,6 +20,21 @@ CHECKS = {
    text="Seeded histories over the repository's own action grammar (client/backend datagrams with unique payloads, late/stale resolutions, clock advances around idle timeouts, cap changes below the live count, cluster reconfiguration incl. affinity flips and PROXY-v2 modes, drain, abort, mass teardown) against the real sans-io UdpManager with the harness as I/O shell and virtual clock; the full Output vector of every call is compared with an independent reference model of stickiness, isolation, ordering, cap and exactly-once teardown.",
    technique="operation-history simulation with injected virtual clock against an executable reference model (history oracle over the Output stream)",
    note="modelsim tier: the flow core is driven directly; the socket shell lib/src/udp.rs is listed as not covered."),
+ "C04": dict(engine="modelsim", design="5/C04", category="exploration",
+   text="Seeded add/remove/re-add histories (pre/tree/post; exact, wildcard and regex hosts; PREFIX/REGEX/EQUALS paths; methods; policies) plus 258 systematic life-cycle and ordered-pair plans against the real Router, with an independent flat-list reference model returning the SET of acceptable routes per the documented precedence; after every operation every probe is checked (route acceptable, removed frontend never returned, unrelated change leaves route unchanged, insertion-order independence under PRNG-chosen permutations).",
+   technique="operation-history simulation against an executable reference model with seeded hash order and insertion permutations", note=MS),
+ "C05": dict(engine="modelsim", design="5/C05", category="exploration",
+   text="Seeded command histories over every mutating verb (valid, invalid, partly invalid arguments) build reachable ConfigStates; snapshots go through all four save/replay paths (generated requests, state file via the real parser loop, protobuf initial-state file, UpgradeData JSON) with encoding under one hash seed on one thread and decoding/replay under another seed on another thread; the replayed state must equal the snapshot map by map.",
+   technique="history simulation with metamorphic round-trip oracle and hash-seed variation across encode/replay", note=MS),
+ "C06": dict(engine="modelsim", design="5/C06", category="exploration",
+   text="Pairs of reachable configurations (prefix/continuation, unrelated histories, near pairs differing in one targeted attribute): the diff computed under one hash seed is applied command by command under another to a rebuilt source and must reach the target exactly, in both directions; diff(X,X) must be empty.",
+   technique="history simulation with convergence oracle and hash-seed variation", note=MS),
+ "C07": dict(engine="modelsim", design="5/C07", category="exploration",
+   text="Histories with a high rate of partly invalid commands; the full ConfigState is compared before and after every command: on Err strict equality (no new empty bucket), on Ok a per-verb footprint model (only named objects/fields change, added objects stored as given, removed absent).",
+   technique="history simulation with frame-rule reference model", note=MS),
+ "C20": dict(engine="modelsim", design="5/C20", category="exploration",
+   text="Seeded TOML configurations from the documented grammar (0..600 entries, all protocols and knobs, two layouts, up to three 8-bit id wraps) go through the real loader -> generate_config_messages -> fresh ConfigState; oracles: every message accepted, state equals an independent reading of the same toml::Table with documented defaults, reload idempotent (equal state, empty diffs), and 0..4 single-mutation constraint-violating neighbours per plan are rejected at load time.",
+   technique="generated-configuration differential against an independent TOML reading, with seeded hash order (the scatter/back-pressure clause needs the hub tier)", note=MS),
  "C16": dict(engine="netsim", design="5/C16", category="exploration",
    text="Seeded deterministic simulation of the real worker under mixes of session outcomes and connection storms with max_connections 2..64: the hooks count the client sockets sozu is serving at every step (never above max_connections); after all peers left and virtual time passed every timeout, no client/backend socket remains open, QueryMetrics gauges equal their pre-traffic baseline and a fresh probe is served.",
    technique="deterministic simulation with fault injection; step-wise admission invariant from the syscall seam; baseline-vs-quiescence footprint comparison"),
